@@ -53,3 +53,17 @@ func (am *Machine) VerifDBSnapshot() map[string][]byte {
 	}
 	return out
 }
+
+// VerifParticipantKeys returns the public keys of a round's participants in the
+// order of their indices, as the round's DKG instance holds them.
+func (am *Machine) VerifParticipantKeys(dkgIdentifier string) ([]kyber.Point, error) {
+	dkgInstance, ok := am.dkgInstances[dkgIdentifier]
+	if !ok {
+		return nil, fmt.Errorf("no dkg instance for %s", dkgIdentifier)
+	}
+	gen := dkgInstance.VerifInstance()
+	if gen == nil {
+		return nil, fmt.Errorf("dkg instance for %s is not initialised", dkgIdentifier)
+	}
+	return append([]kyber.Point(nil), gen.GetConfig().NewNodes...), nil
+}
